@@ -45,6 +45,18 @@ def run(repo, rep, tier):
 
     from .c12 import _source_identity
     _source_identity(repo, rep, rule="R13.5")
+    # error.lineno / error.offset are read from __token in the handler: a
+    # token left over from before a call into another emitted function would
+    # locate the failure at an unrelated expression
+    from .c12 import transfers
+    transfers(repo, rep, rule="R13.5")
+    from .c01 import content_node_total
+    okc, detail = content_node_total(repo)
+    rep.check(okc, "R13.3", "chameleon.zpt.program.MacroProgram."
+              "_make_content_node", "the on-error expression is evaluated "
+              "and inserted as text (escaped) or structure like any content "
+              "expression -- no shortcut for constant strings",
+              construct="fallback-content-total", detail=detail)
 
     func = repo.func(ANCHOR)
     res = L.emission(repo, ANCHOR)
